@@ -20,7 +20,7 @@ EXPLANATION = ("Real l2_learning.LearningSwitch._handle_PacketIn, of_01.Connecti
 FUNCTIONS = ["pox.forwarding.l2_learning.LearningSwitch._handle_PacketIn/l2_learning._handle_ConnectionUp", "pox.openflow.of_01.Connection + handshake/default handlers",
              "pox.datapaths.switch.SoftwareSwitch.rx_packet/_rx_flow_mod/_rx_packet_out/send_packet_in/OFConnection", "libopenflow_01 pack/unpack (both directions)"]
 BOUNDS = {}
-OUTSIDE = ["more than 2 frames in the quick tier / 3 in the thorough tier, more than 1 switch, topologies with loops", "_flood_delay hold-down (0)", "frames other than the 18-byte test frame shape"]
+OUTSIDE = ["more than 2 frames in the quick tier / 3 in the thorough tier, more than 1 switch, topologies with loops", "_flood_delay hold-down (0)", "frames other than the 18-byte / 168-byte test frame shapes (payload bytes concrete)"]
 ASSUMPTIONS = ["controller and switch exchange bytes through in-memory pipes pumped to quiescence after every frame; virtual clock shared by all modules"]
 
 NPORTS = 3
@@ -75,7 +75,7 @@ class Net:
     raise RuntimeError("control channel did not quiesce")
 
 
-def h_frames(ctx, nframes, buffers, sweep):
+def h_frames(ctx, nframes, buffers, sweep, pad=0):
   net = Net(ctx, buffers)
   of = net.of
   ctx.check('handshake completed', net.con.connect_time is not None and net.nexus.getConnection(7) is net.con)
@@ -87,7 +87,7 @@ def h_frames(ctx, nframes, buffers, sweep):
     inport = ctx.int('inport%d' % i, 1, NPORTS)
     lldp = ctx.bool('lldp%d' % i)
     et = [0x88, 0xcc] if lldp else [0x08, 0x01]
-    raw = env.tobytes(ctx, list(dst) + list(src) + et + [i, 0xaa, 0xbb, 0xcc])
+    raw = env.tobytes(ctx, list(dst) + list(src) + et + [i, 0xaa, 0xbb, 0xcc] + [(7 * k + i) & 0xff for k in range(pad)])
     if sweep:
       net.clock.now = net.clock.now + ctx.int('gap%d' % i, 0, 45)
       net.sw.table.remove_expired_entries()
@@ -133,9 +133,10 @@ def h_frames(ctx, nframes, buffers, sweep):
 def obligations(tier):
   thorough = tier != 'quick'
   cases = [dict(nframes=1, buffers=0, sweep=False), dict(nframes=2, buffers=0, sweep=False), dict(nframes=2, buffers=2, sweep=False),
-           dict(nframes=2, buffers=2, sweep=True), dict(nframes=2, buffers=1, sweep=True)]
+           dict(nframes=2, buffers=2, sweep=True), dict(nframes=2, buffers=1, sweep=True),
+           dict(nframes=2, buffers=0, sweep=False, pad=150), dict(nframes=2, buffers=1, sweep=False, pad=150)]   # frames longer than miss_send_len
   if thorough: cases += [dict(nframes=3, buffers=2, sweep=False), dict(nframes=3, buffers=0, sweep=False), dict(nframes=3, buffers=2, sweep=True)]
   BOUNDS[tier] = dict(switches=1, ports=NPORTS, frames=[c['nframes'] for c in cases], macs="48-bit symbolic source/destination per frame (all aliasing patterns)",
-                      ingress="symbolic port", gaps="0..45 s symbolic with an expiry sweep before each frame (sweep cases)", buffering=sorted({c['buffers'] for c in cases}))
+                      ingress="symbolic port", gaps="0..45 s symbolic with an expiry sweep before each frame (sweep cases)", buffering=sorted({c['buffers'] for c in cases}), frame_lengths=[18, 168], miss_send_len=128)
   return [Obligation('O1_frames', h_frames, cases, witnesses=('done', 'flood', 'unicast-known', 'filtered', 'cached-flow'), max_decisions=40000,
                      desc='frames emitted per port == ideal learning bridge; buffers never leak')]
